@@ -25,10 +25,12 @@ import (
 )
 
 type act struct {
-	Op string `json:"op"`
-	P  int    `json:"p"`
-	Ks []int  `json:"ks"`
-	M  string `json:"m"`
+	Op   string `json:"op"`
+	P    int    `json:"p"`
+	Ks   []int  `json:"ks"`
+	M    string `json:"m"`
+	N    int    `json:"n"`    // op "run": repetitions
+	Nest bool   `json:"nest"` // op "run": n nested read locks that stay held (else n lock/unlock cycles)
 }
 
 // locker hides the nine concrete variants.
@@ -45,9 +47,14 @@ type anyLocker struct {
 	l   keylock.Locker
 	str bool
 	mix bool // distinct keys that are the same number in different integer types (and a string)
+	odd int  // 1..3: keys of unusual dynamic kinds (kinds.go: un-sharded / SimpleIndex / XHashIndex table)
+	off int
 }
 
 func (a *anyLocker) key(k int) interface{} {
+	if a.odd > 0 {
+		return oddKey(a.odd-1, k, a.off)
+	}
 	if a.mix {
 		// interface{} keys are equal only if type and value are equal: these are all different keys
 		switch k % 8 {
@@ -88,7 +95,7 @@ func (a *anyLocker) unlock(ks []int, m string, _ bool) {
 		a.l.RUnlock(a.key(ks[0]))
 	}
 }
-func (a *anyLocker) entries() int { return keylock.VerifEntries(a.l) }
+func (a *anyLocker) entries() int { return watched(func() int { return keylock.VerifEntries(a.l) }) }
 func (a *anyLocker) multi() bool  { return false }
 
 type tLocker[T comparable] struct {
@@ -96,12 +103,28 @@ type tLocker[T comparable] struct {
 	mk func(int) T
 }
 
+var nilLists int
+
 func (t *tLocker[T]) keys(ks []int) []T {
-	out := make([]T, len(ks))
+	if len(ks) == 0 {
+		if nilLists++; nilLists%2 == 0 {
+			return nil // "no keys" is spelled nil as often as empty
+		}
+	}
+	out := make([]T, len(ks), len(ks)+2)
 	for i, k := range ks {
 		out[i] = t.mk(k)
 	}
 	return out
+}
+
+// scribble: the list is the caller's again once the call has returned - it is written over and appended
+// to (a locker that kept it would now unlock something else)
+func (t *tLocker[T]) scribble(kk []T) {
+	for i := range kk {
+		kk[i] = t.mk(39)
+	}
+	_ = append(kk, t.mk(38), t.mk(37))
 }
 func (t *tLocker[T]) lock(ks []int, m string, multiAPI bool) {
 	switch {
@@ -110,9 +133,13 @@ func (t *tLocker[T]) lock(ks []int, m string, multiAPI bool) {
 	case len(ks) == 1 && !multiAPI:
 		t.l.RLock(t.mk(ks[0]))
 	case m == "w":
-		t.l.Locks(t.keys(ks))
+		kk := t.keys(ks)
+		t.l.Locks(kk)
+		t.scribble(kk)
 	default:
-		t.l.RLocks(t.keys(ks))
+		kk := t.keys(ks)
+		t.l.RLocks(kk)
+		t.scribble(kk)
 	}
 }
 func (t *tLocker[T]) unlock(ks []int, m string, multiAPI bool) {
@@ -122,20 +149,63 @@ func (t *tLocker[T]) unlock(ks []int, m string, multiAPI bool) {
 	case len(ks) == 1 && !multiAPI:
 		t.l.RUnlock(t.mk(ks[0]))
 	case m == "w":
-		t.l.Unlocks(t.keys(ks))
+		kk := t.keys(ks)
+		t.l.Unlocks(kk)
+		t.scribble(kk)
 	default:
-		t.l.RUnlocks(t.keys(ks))
+		kk := t.keys(ks)
+		t.l.RUnlocks(kk)
+		t.scribble(kk)
 	}
 }
-func (t *tLocker[T]) entries() int { return keylock.VerifEntriesT(t.l) }
+func (t *tLocker[T]) entries() int { return watched(func() int { return keylock.VerifEntriesT(t.l) }) }
 func (t *tLocker[T]) multi() bool  { return true }
 
-var variants = []string{"kl-int", "kl-str", "klg-int", "klgx-str", "kl-mix", "klg-mix", "klgx-mix", "tk-int", "tk-str", "tkg-int", "tkg-str", "tkgx-int", "tkgx-str"}
+// watched: the entry count is read under the locker's table mutex.  A call that panicked inside the
+// locker (recovered by guard, reported as that worker's status) may have left the mutex locked for
+// good; the reader then never comes back.  That is an observation (-2: "could not be read"), not the
+// end of the harness - Go's "all goroutines are asleep" detector must not be what ends it.
+func watched(f func() int) int {
+	ch := make(chan int, 1)
+	go func() { ch <- f() }()
+	select {
+	case n := <-ch:
+		return n
+	case <-time.After(3 * time.Second):
+		return -2
+	}
+}
+
+var variants = []string{"kl-int", "kl-str", "klg-int", "klgx-str", "kl-mix", "klg-mix", "klgx-mix", "tk-int", "tk-str", "tkg-int", "tkg-str", "tkgx-int", "tkgx-str",
+	"kl-odd", "klg-odd", "klgx-odd", "tk-struct", "tk-arr", "tk-ptr", "tkg-bs", "tkgx-bs", "tkg-hit", "tkg-u8"}
+
+var lockerCount int
 
 func newLocker(variant string, shards int) locker {
 	opt := remap.WithPrime(uint64(shards))
 	id := func(k int) int { return k }
+	lockerCount++
 	switch variant {
+	case "kl-odd":
+		return &anyLocker{l: keylock.NewKeyLocker(), odd: 1, off: lockerCount}
+	case "klg-odd":
+		return &anyLocker{l: keylock.NewKeyLockeGrp(opt), odd: 2, off: lockerCount}
+	case "klgx-odd":
+		return &anyLocker{l: keylock.NewXHashKeyLockeGrp(opt), odd: 3, off: lockerCount}
+	case "tk-struct":
+		return &tLocker[pk]{keylock.NewTKeyLocker[pk](), func(k int) pk { return pk{k % 3, fmt.Sprint(k / 3)} }}
+	case "tk-arr":
+		return &tLocker[[2]int]{keylock.NewTKeyLocker[[2]int](), func(k int) [2]int { return [2]int{k % 2, k / 2} }}
+	case "tk-ptr":
+		return &tLocker[*int]{keylock.NewTKeyLocker[*int](), func(k int) *int { return ptrKeys[k%len(ptrKeys)] }}
+	case "tkg-bs":
+		return &tLocker[bsKey]{keylock.NewTKeyLockeGrp[bsKey](opt), func(k int) bsKey { return bsKey{k} }}
+	case "tkgx-bs":
+		return &tLocker[bsKey]{keylock.NewTXHashTKeyLockeGrp[bsKey](opt), func(k int) bsKey { return bsKey{k} }}
+	case "tkg-hit":
+		return &tLocker[hitKey]{keylock.NewTKeyLockeGrp[hitKey](opt), func(k int) hitKey { return hitKey{k} }}
+	case "tkg-u8":
+		return &tLocker[uint8]{keylock.NewTKeyLockeGrp[uint8](opt), func(k int) uint8 { return uint8(k) }}
 	case "kl-int":
 		return &anyLocker{l: keylock.NewKeyLocker()}
 	case "kl-str":
@@ -173,6 +243,7 @@ type proc struct {
 	m      string
 	multi  bool
 	unl    bool // an unlock call is outstanding
+	nest   int  // > 0: holds that many nested read locks of its call (a run with Nest)
 }
 
 type world struct {
@@ -183,7 +254,9 @@ type world struct {
 	// asks for more".  sync.RWMutex has no owner, so for the locker one goroutine that holds the keys of
 	// two calls is two workers with two constraints: p calls only while q holds and only keys above all
 	// of q's (the goroutine respects the global key order), and q unlocks only when p is idle again.
-	chain map[int]int
+	chain     map[int]int
+	dead      bool // a worker is parked inside a run or panicked: nothing more is issued in this world
+	lastRunOK int
 }
 
 func (wd *world) succOf(q int) int {
@@ -196,8 +269,8 @@ func (wd *world) succOf(q int) int {
 }
 
 func (wd *world) mayUnlock(q int) bool {
-	if wd.ps[q-1].status != "held" {
-		return false
+	if wd.ps[q-1].status != "held" || wd.ps[q-1].unl {
+		return false // (an unlock that has not come back stays outstanding: judged as stuck at the end)
 	}
 	if p := wd.succOf(q); p != 0 && wd.ps[p-1].status != "idle" {
 		return false
@@ -211,7 +284,7 @@ func (wd *world) poll() {
 			if s, bad := r.(string); bad {
 				p.status = s // "panic: ..." - the spec cannot explain it
 			} else if p.unl {
-				p.status, p.unl, p.ks = "idle", false, nil
+				p.status, p.unl, p.ks, p.nest = "idle", false, nil, 0
 			} else {
 				p.status = "held"
 			}
@@ -234,7 +307,12 @@ func (wd *world) step(a act, rng *rand.Rand) (act, bool) {
 		return a, false
 	}
 	p := wd.ps[a.P-1]
+	if wd.dead {
+		return a, false
+	}
 	switch a.Op {
+	case "run":
+		return wd.run(a, rng)
 	case "call":
 		if p.status != "idle" {
 			return a, false
@@ -266,8 +344,17 @@ func (wd *world) step(a act, rng *rand.Rand) (act, bool) {
 			return a, false
 		}
 		p.unl = true
-		l, ks, m, multi := wd.l, p.ks, p.m, p.multi
-		wd.x.Issue(a.P, func() interface{} { return guard(func() { l.unlock(ks, m, multi) }) })
+		l, ks, m, multi, times := wd.l, p.ks, p.m, p.multi, p.nest
+		if times < 1 {
+			times = 1
+		}
+		wd.x.Issue(a.P, func() interface{} {
+			return guard(func() {
+				for i := 0; i < times; i++ {
+					l.unlock(ks, m, multi)
+				}
+			})
+		})
 	default:
 		return a, false
 	}
@@ -279,6 +366,10 @@ func (wd *world) step(a act, rng *rand.Rand) (act, bool) {
 }
 
 func (wd *world) emit(w *tr.W, a act) {
+	if a.Op == "run" {
+		wd.emitRun(w, a)
+		return
+	}
 	st := make([]string, len(wd.ps))
 	for i, p := range wd.ps {
 		st[i] = p.status
@@ -315,7 +406,7 @@ func runChainPlan(w *tr.W, rng *rand.Rand, src, variant string, shards, nprocs i
 		}
 	}
 	// drain: unlock whoever holds until nobody does; anybody still parked then is deadlocked
-	for round := 0; round < 8*nprocs; round++ {
+	for round := 0; round < 8*nprocs && !wd.dead; round++ {
 		done := true
 		for i := range wd.ps {
 			if wd.mayUnlock(i + 1) {
@@ -443,6 +534,10 @@ func randPlan(rng *rand.Rand, nprocs, nkeys, n int) []act {
 			if rng.Intn(25) == 0 {
 				ks = []int{} // a list that filtered down to nothing: holds nothing, must return, must not matter
 			}
+			if len(ks) > 0 && rng.Intn(30) == 0 { // a run of this call (skipped where it might have to wait)
+				out = append(out, act{Op: "run", P: p, Ks: ks, M: m, N: []int{2, 255, 256, 257, 65536, 700}[rng.Intn(6)], Nest: m == "r" && rng.Intn(2) == 0})
+				continue
+			}
 			out = append(out, act{Op: "call", P: p, Ks: ks, M: m})
 		} else {
 			out = append(out, act{Op: "unlock", P: p})
@@ -569,6 +664,8 @@ func main() {
 	ncold := flag.Int("ncold", 300, "cold-start rounds (first use of a fresh locker under contention)")
 	nnest := flag.Int("nnest", 200, "nested-hold probes (a goroutine holding the keys of two calls)")
 	probePairs := flag.Int("probepairs", 60, "pairs probed per long list")
+	nlong := flag.Int("nlong", 0, "plans with long runs (lock/unlock cycles, nested read locks) around counter widths")
+	nsim := flag.Int("nsim", 0, "free-running rounds in which several holders unlock at one instant")
 	only := flag.String("only", "", "restrict to variants containing one of these comma-separated fragments (e.g. \"g-,gx-\" = sharded groups only)")
 	flag.Parse()
 	if *only != "" {
@@ -609,7 +706,7 @@ func main() {
 	}
 	// goroutines holding the keys of several calls (un-sharded lockers: there the callers' key order is
 	// the only order there is; a sharded group takes the keys of one call shard by shard)
-	unsh := []string{"tk-int", "tk-str", "kl-int", "kl-str", "kl-mix"}
+	unsh := []string{"tk-int", "tk-str", "kl-int", "kl-str", "kl-mix", "kl-odd", "tk-struct", "tk-ptr"}
 	if *only == "" {
 		for i := 0; i < *nnest; i++ {
 			runNestProbes(w, rng, unsh[i%2], 1)
@@ -628,6 +725,9 @@ func main() {
 			runChainPlan(w, rng, "chainrand", unsh[rng.Intn(len(unsh))], 1, np, map[int]int{3: 1, 4: 2}, randPlan(rng, np, nk, 30+rng.Intn(40)))
 		}
 	}
+	for i := 0; i < *nlong && len(variants) > 0; i++ {
+		runPlan(w, rng, "long", variants[(i*5+int(*seed))%len(variants)], shardsL[rng.Intn(4)], 4, longPlan(rng))
+	}
 	w.Close()
 	sw := tr.Create(*stress)
 	for i := 0; i < *nstress; i++ {
@@ -636,6 +736,9 @@ func main() {
 	// cold-start rounds: what a locker sets up on first use (a shard, an entry) is set up under contention
 	for i := 0; i < *ncold; i++ {
 		runStress(sw, rng, variants[rng.Intn(len(variants))], shardsL[rng.Intn(4)], 2+rng.Intn(3), 1+rng.Intn(2), 1+rng.Intn(2), true)
+	}
+	for i := 0; i < *nsim && simStuck < 3 && len(variants) > 0; i++ {
+		runSimU(sw, rng, variants[rng.Intn(len(variants))], shardsL[rng.Intn(4)])
 	}
 	sw.Close()
 	fmt.Printf("step_events=%d stress_events=%d\n", w.N(), sw.N())
